@@ -2,13 +2,16 @@
 // through the real routers, the delivered packet is answered with the REAL path
 // reversal (snet.DefaultReplyPather / scion.Raw.Reverse / scion.Decoded.Reverse,
 // in rotation), addresses and ports swapped, and the reply is walked back.
+// A few requests are additionally sent on the EPIC path type (epic stream): the
+// delivered EPIC packet is answered with the real snet.DefaultReplyPather and the
+// reply - a plain SCION-type packet, C03_epic - is walked back the same way.
 package main
 
 import (
 	"fmt"
+	"os"
 
 	"verifharness/internal/netgen"
-	"verifharness/internal/rtgen"
 	"verifharness/internal/vgen"
 )
 
@@ -16,16 +19,21 @@ const rule = "the path space of C02 (real extender, real combinator, 3-10 ASes, 
 	"after delivery the destination host (for an SVC destination: the backend) reverses the path of the DELIVERED packet with the " +
 	"real code (DefaultReplyPather / Raw.Reverse / Decoded.Reverse in rotation), swaps addresses and UDP ports and sends the reply " +
 	"to the router owning its first interface; compared with Network.mk_reply and Network.forward at every router; " +
-	"non-trivial = the path has >= 2 segments or is a shortcut / peering path"
+	"epic stream: the same with the request sent on the EPIC path type (real libepic HVFs, >= 3 hop fields, no peering) and " +
+	"answered with DefaultReplyPather; non-trivial = the path has >= 2 segments or is a shortcut / peering path"
 
 func main() {
 	netgen.Main("C03", "Prov.check03", rule, func(x *netgen.Ctx) {
 		run := x.Run
 		nWorlds := run.Count(14, 300)
 		perWorld := 14
+		epicPerWorld := 1
 		if run.Tier == "thorough" {
 			perWorld = 40
+			epicPerWorld = 4
 		}
+		epicIn := map[*netgen.World]int{}
+		epicDone := 0
 		x.EachPath(nWorlds, perWorld, func(i int, w *netgen.World, p *netgen.Path, r *vgen.Rand) {
 			s, err := w.Send(p, nil)
 			if err != nil {
@@ -40,54 +48,84 @@ func main() {
 				}
 				return
 			}
-			how := i % len(netgen.ReplyHow)
-			payload := r.Bytes(r.Range(0, 12))
-			rraw, rport, err := netgen.Reply(s.Walk.Last, p.ReplyFrom, payload, how)
-			desc := s.Describe(w)
-			desc["reverse_with"] = netgen.ReplyHow[how]
-			if err != nil {
-				run.Violate(-1, "the delivered packet cannot be answered: "+err.Error(), desc)
-				return
-			}
-			rrec, err := rtgen.Parse(rraw)
-			drec, err2 := rtgen.Parse(s.Walk.Last)
-			if err != nil || err2 != nil {
-				run.Violate(-1, "reply or delivered packet does not parse", desc)
-				return
-			}
-			// the reply starts at the router of the destination AS that owns its first interface
-			inf, h := rrec.Infos[rrec.CurrINF], rrec.Hops[rrec.CurrHF]
-			eg := h.ConsIngress
-			if inf.ConsDir {
-				eg = h.ConsEgress
-			}
-			a := w.Net.AS(p.DstIA)
-			f := a.If(eg)
-			if f == nil {
-				run.Violate(-1, fmt.Sprintf("first interface %d of the reply is not an interface of %s", eg, p.DstIA), desc)
-				return
-			}
-			back := w.Net.Walk(rraw, p.DstIA, f.Owner, nil)
-			p.HopMacs(w.Net, back)
-			topo, _, prov, pp := netgen.PathTerms(w, s)
-			port, ok, _ := s.Desc.L4.DstPort()
-			term := vgen.App("Prov.CReply", topo, vgen.N(uint64(back.NowNs)), back.MacsTerm(), prov, pp,
-				netgen.RecTerm(drec, port, ok),
-				vgen.N(uint64(p.ReplyFrom.Type)), vgen.Bytes(p.ReplyFrom.Raw), vgen.N(uint64(rrec.PayLen)),
-				vgen.Opt(vgen.N(uint64(rport)), true), netgen.RecTerm(rrec, rport, true), "true", back.TraceTerm())
-			w.Tallies(run, p, back)
-			run.Tally("reverse:" + netgen.ReplyHow[how])
-			desc["reply_raw"] = fmt.Sprintf("%x", rraw)
-			desc["reply_walk"] = back.Describe()
-			desc["reply_crossed"] = back.Crossed()
-			id := run.Add("reply", term, fmt.Sprintf("%s|%x", topo, rraw), len(p.Slices) >= 2 || p.Shortcut || p.Peering, desc)
-			if back.Panic != "" {
-				run.Violate(id, "router panicked: "+back.Panic, desc)
-			}
-			if !back.Delivered() {
-				run.Violate(id, "the reply to a delivered packet was not delivered: "+back.Final.Kind+" "+
-					back.Final.StopDesc, desc)
+			answer(run, w, p, r, s, i%len(netgen.ReplyHow), "reply")
+			// the same request on the EPIC path type
+			if p.NumHops() >= 3 && !p.Peering && epicIn[w] < epicPerWorld {
+				es, _, err := w.SendEpic(p, uint32(r.U64()))
+				if err != nil {
+					run.Tally("epic:not-sent:" + err.Error())
+					return
+				}
+				epicIn[w]++
+				if !es.Walk.Delivered() {
+					// the EPIC request is fresh for about 3.5 s only; a stalled machine can lose it
+					run.Tally("epic:request-not-delivered:" + es.Walk.Final.StopDesc)
+					return
+				}
+				run.Tally(fmt.Sprintf("epic:request-delivered:%02d-hops", p.NumHops()))
+				epicDone++
+				answer(run, w, p, r, es, 0, "epic-reply")
 			}
 		})
+		if epicDone == 0 && run.N == 0 {
+			fmt.Fprintln(os.Stderr, "c03: no EPIC request was delivered, the epic stream is empty")
+			os.Exit(3)
+		}
 	})
+}
+
+// answer builds the reply to the delivered request s with the real reversal code and walks it back.
+func answer(run *vgen.Run, w *netgen.World, p *netgen.Path, r *vgen.Rand, s *netgen.Sent, how int, kind string) {
+	payload := r.Bytes(r.Range(0, 12))
+	rraw, rport, err := netgen.Reply(s.Walk.Last, p.ReplyFrom, payload, how)
+	desc := s.Describe(w)
+	desc["reverse_with"] = netgen.ReplyHow[how]
+	desc["stream"] = kind
+	if err != nil {
+		run.Violate(-1, "the delivered packet cannot be answered: "+err.Error(), desc)
+		return
+	}
+	// the records the model works on: for an EPIC packet the embedded SCION path
+	rrec, err := netgen.ParseEmbedded(rraw)
+	drec, err2 := netgen.ParseEmbedded(s.Walk.Last)
+	if err != nil || err2 != nil {
+		run.Violate(-1, "reply or delivered packet does not parse", desc)
+		return
+	}
+	if len(rraw) > 8 && rraw[8] != 1 {
+		run.Tally(fmt.Sprintf("%s:reply-path-type-%d", kind, rraw[8]))
+	}
+	// the reply starts at the router of the destination AS that owns its first interface
+	inf, h := rrec.Infos[rrec.CurrINF], rrec.Hops[rrec.CurrHF]
+	eg := h.ConsIngress
+	if inf.ConsDir {
+		eg = h.ConsEgress
+	}
+	a := w.Net.AS(p.DstIA)
+	f := a.If(eg)
+	if f == nil {
+		run.Violate(-1, fmt.Sprintf("first interface %d of the reply is not an interface of %s", eg, p.DstIA), desc)
+		return
+	}
+	back := w.Net.Walk(rraw, p.DstIA, f.Owner, nil)
+	p.HopMacs(w.Net, back)
+	topo, _, prov, pp := netgen.PathTerms(w, s)
+	port, ok, _ := s.Desc.L4.DstPort()
+	term := vgen.App("Prov.CReply", topo, vgen.N(uint64(back.NowNs)), back.MacsTerm(), prov, pp,
+		netgen.RecTerm(drec, port, ok),
+		vgen.N(uint64(p.ReplyFrom.Type)), vgen.Bytes(p.ReplyFrom.Raw), vgen.N(uint64(rrec.PayLen)),
+		vgen.Opt(vgen.N(uint64(rport)), true), netgen.RecTerm(rrec, rport, true), "true", back.TraceTerm())
+	w.Tallies(run, p, back)
+	run.Tally("reverse:" + netgen.ReplyHow[how])
+	desc["reply_raw"] = fmt.Sprintf("%x", rraw)
+	desc["reply_walk"] = back.Describe()
+	desc["reply_crossed"] = back.Crossed()
+	id := run.Add(kind, term, fmt.Sprintf("%s|%x", topo, rraw), len(p.Slices) >= 2 || p.Shortcut || p.Peering, desc)
+	if back.Panic != "" {
+		run.Violate(id, "router panicked: "+back.Panic, desc)
+	}
+	if !back.Delivered() {
+		run.Violate(id, "the reply to a delivered packet was not delivered: "+back.Final.Kind+" "+
+			back.Final.StopDesc, desc)
+	}
 }
